@@ -934,7 +934,7 @@ func TestVerifC16(t *testing.T) {
 		"base and intra-L0 picks with random depths, deferred completion of picked compactions); distinct = distinct operation log; " +
 		"non-trivial = at least one picked compaction was executed and L0 reached 3 or more tables")
 	r.Exhaustive(false) // sampled sessions; the enumerated part is TestVerifC16Exhaustive
-	n := vcommon.Scale(20000, 1000000)
+	n := vcommon.Scale(20000, 400000)
 	r.Cases(n, func(ci int, rng *rand.Rand) {
 		s := &verifC16Sim{rng: rng, r: r, nkeys: 4 + rng.IntN(9), fsb: []int64{0, 1, 64, 1 << 10, 1 << 20, 64 << 20}[rng.IntN(6)]}
 		if rng.IntN(4) == 0 {
